@@ -33,7 +33,7 @@ BOUNDS = {
     "thorough": {"transform_depth": 4, "recover_depth": 5, "execute_depth": 3, "gargle_entries": 4, "bg": "all"},
 }
 
-ARGS = (b"", b"A", b"\x00\xff", None)  # None -> 300 LCG bytes
+ARGS = (b"", b"A", b"\x00\xff", b"k=v\x00\x00", None)  # None -> 300 LCG bytes; one argument ends in NUL bytes
 
 
 def transform_symbols(seed):
